@@ -5,6 +5,7 @@
 //!       the real crate builds the world and the projections are compared field by field.
 //!       impl -> spec: for a sample of the cases the real graph queries are recorded as trace
 //!       events that the trace specification validates.
+mod fc;
 mod jsr;
 mod ops;
 mod project;
@@ -284,6 +285,8 @@ fn main() {
     Some("record-jsr") => cmd_record_jsr(&args),
     Some("sched") => cmd_sched(&args),
     Some("info") => cmd_info(&args),
+    Some("fc") => cmd_fc(&args),
+    Some("fcdump") => cmd_fcdump(&args),
     Some("replay-enc") => cmd_replay_enc(&args),
     _ => {
       eprintln!("usage: dgv <replay-core> ...");
@@ -841,5 +844,111 @@ pub fn cmd_replay_enc(args: &[String]) -> i32 {
   }
   let res = json!({"cases": n, "loads": stats.0, "modules": stats.1, "mismatches": mism});
   std::fs::write(&result_path, serde_json::to_string(&res).unwrap()).unwrap();
+  0
+}
+
+/// fc (C09-C12): seeded random workspace packages, or TLC-generated abstract programs (--cases), run through the real
+/// fast check without cache / cold / warm / after an edit with the stale cache; one `fc` trace event per run.
+pub fn cmd_fc(args: &[String]) -> i32 {
+  use rand::SeedableRng;
+  let trace_path = arg(args, "--trace").expect("--trace");
+  let result_path = arg(args, "--result").expect("--result");
+  let seed: u64 = arg(args, "--seed").map(|s| s.parse().unwrap()).unwrap_or(1);
+  let n: usize = arg(args, "--n").map(|s| s.parse().unwrap()).unwrap_or(100);
+  let slow: f64 = arg(args, "--slow").map(|s| s.parse().unwrap()).unwrap_or(0.08);
+  let mut rng = rand::rngs::StdRng::seed_from_u64(seed);
+  let mut out: Vec<Value> = vec![];
+  let mut problems: Vec<Value> = vec![];
+  let mut worlds: Vec<(String, fc::FcWorld, Option<Value>)> = vec![];
+  if let Some(cases) = arg(args, "--cases") {
+    for (i, l) in std::io::BufReader::new(std::fs::File::open(cases).expect("cases")).lines().enumerate() {
+      let l = l.unwrap();
+      if l.trim().is_empty() { continue; }
+      let case: Value = serde_json::from_str(&l).unwrap();
+      worlds.push((format!("prog{i}"), fc::render_program(&case["prog"]), Some(case)));
+    }
+  } else if let Some(sf) = arg(args, "--shapes") {
+    for (i, l) in std::io::BufReader::new(std::fs::File::open(sf).expect("shapes")).lines().enumerate() {
+      let l = l.unwrap();
+      if l.trim().is_empty() { continue; }
+      let case: Value = serde_json::from_str(&l).unwrap();
+      let mut codes: Vec<String> = case["codes"].as_array().map(|a| a.iter().filter_map(|x| x.as_str().map(|s| s.to_string())).collect()).unwrap_or_default();
+      codes.sort();
+      worlds.push((format!("shape{i}"), fc::render_shape(&case["shape"]), Some(json!({"expect": {"codes": codes, "shape": case["shape"]}}))));
+    }
+  } else if let Some(wf) = arg(args, "--worlds") {
+    for (i, l) in std::io::BufReader::new(std::fs::File::open(wf).expect("worlds")).lines().enumerate() {
+      let l = l.unwrap();
+      if l.trim().is_empty() { continue; }
+      worlds.push((format!("fw{i}"), serde_json::from_str(&l).expect("fc world"), None));
+    }
+  } else {
+    for i in 0..n {
+      worlds.push((format!("fw{i}"), fc::gen_world(&mut rng, slow), None));
+    }
+  }
+  let run = |wid: &str, world: &fc::FcWorld, cache: Option<&fc::MemCache>, problems: &mut Vec<Value>| -> Option<Value> {
+    let r = std::panic::catch_unwind(std::panic::AssertUnwindSafe(|| {
+      let mut g = fc::build_graph(world);
+      fc::run_fast_check(world, &mut g, cache);
+      fc::project(world, &g)
+    }));
+    match r {
+      Ok(p) => Some(p),
+      Err(e) => {
+        problems.push(json!({"world": wid, "what": "panic", "msg": panic_msg(e), "prop": ["C09", "C10", "C11", "C12"]}));
+        None
+      }
+    }
+  };
+  for (wid, world, case) in &worlds {
+    out.push(json!({"ev": "fcworld", "world": wid, "w": serde_json::to_value(world).unwrap(),
+                    "expect": case.as_ref().map(|c| c["expect"].clone()).unwrap_or(json!({"none": true}))}));
+    let cache = fc::MemCache::default();
+    let mut step = 0;
+    let mut emit = |mode: &str, base: usize, p: Option<Value>, out: &mut Vec<Value>, step: &mut usize| {
+      if let Some(p) = p {
+        out.push(json!({"ev": "fc", "world": wid, "step": *step, "mode": mode, "base": base, "proj": p}));
+      }
+      *step += 1;
+    };
+    emit("none", 0, run(wid, world, None, &mut problems), &mut out, &mut step);
+    if case.is_some() {
+      continue; // TLC-generated programs: the public-set comparison needs one run only
+    }
+    emit("none", 0, run(wid, world, None, &mut problems), &mut out, &mut step);
+    emit("cold", 0, run(wid, world, Some(&cache), &mut problems), &mut out, &mut step);
+    emit("warm", 0, run(wid, world, Some(&cache), &mut problems), &mut out, &mut step);
+    let (w2, what) = fc::edit_world(&mut rng, world);
+    out.push(json!({"ev": "fcedit", "world": wid, "what": what, "w": serde_json::to_value(&w2).unwrap()}));
+    let base = step;
+    emit("none", base, run(wid, &w2, None, &mut problems), &mut out, &mut step);
+    emit("stale", base, run(wid, &w2, Some(&cache), &mut problems), &mut out, &mut step);
+    emit("warm", base, run(wid, &w2, Some(&cache), &mut problems), &mut out, &mut step);
+  }
+  let mut f = std::io::BufWriter::new(std::fs::File::create(&trace_path).unwrap());
+  for e in &out {
+    writeln!(f, "{}", e).unwrap();
+  }
+  let res = json!({"worlds": worlds.len(), "trace_events": out.len(), "mismatches": problems});
+  std::fs::write(&result_path, serde_json::to_string(&res).unwrap()).unwrap();
+  0
+}
+
+/// fcdump: print the emitted fast-check text of every module of one world (debugging aid)
+pub fn cmd_fcdump(args: &[String]) -> i32 {
+  let w: fc::FcWorld = serde_json::from_str(&std::fs::read_to_string(arg(args, "--world").unwrap()).unwrap()).unwrap();
+  let mut g = fc::build_graph(&w);
+  fc::run_fast_check(&w, &mut g, None);
+  for m in g.modules() {
+    if let deno_graph::Module::Js(js) = m {
+      println!("=== {} ===", js.specifier);
+      match &js.fast_check {
+        Some(deno_graph::FastCheckTypeModuleSlot::Module(fc)) => println!("{}", fc.source),
+        Some(deno_graph::FastCheckTypeModuleSlot::Error(d)) => println!("ERROR {:?}", d.iter().map(|x| x.to_string()).collect::<Vec<_>>()),
+        None => println!("(none)"),
+      }
+    }
+  }
   0
 }
